@@ -8,6 +8,7 @@ import z3
 from . import src as S
 from .core import *  # noqa: F401,F403
 from .vals import *  # noqa: F401,F403
+from .vals import SEQ, MapSeqP, SetP, VMapSlot
 from .ev_expr import UNBOUND, BoolishV, StrListP, MAXCP
 from .ev_stmt import assigned_names, attr_path
 from .schema import SCHEMA, CLASS_MODULE, class_of_annotation
@@ -326,6 +327,25 @@ class CallMixin:
             return self.list_method(recv, name, args, node, fr)
         if isinstance(recv, VStr):
             return self.str_method(recv, name, args, node, fr)
+        if isinstance(recv, VMapSlot) and name == "append":
+            p = self.payload.get(recv.ref) or self.mut_payload(recv.ref)
+            p.vals = z3.Store(p.vals, recv.key, z3.Concat(z3.Select(p.vals, recv.key), z3.Unit(self.atom_term(args[0]))))
+            self.on_payload_write(recv.ref, node, fr)
+            return NONE
+        if isinstance(recv, VDict) and isinstance(self.get_payload(recv.ref), SetP) and name == "add":
+            p = self.payload.get(recv.ref) or self.mut_payload(recv.ref)
+            p.mem = z3.Store(p.mem, self.atom_term(args[0]), z3.BoolVal(True))
+            return NONE
+        if isinstance(recv, VOpt) and isinstance(recv.some, VDict):
+            self.safe_or_raise(z3.Not(recv.isnone), "AttributeError", node, fr, "call")
+            recv = recv.some
+        if isinstance(recv, VDict) and isinstance(self.get_payload(recv.ref), MapSeqP) and name == "get":
+            p = self.get_payload(recv.ref)
+            k = self.atom_term(args[0])
+            dflt = args[1] if len(args) > 1 else NONE
+            if isinstance(dflt, VList) and isinstance(self.get_payload(dflt.ref), PyListP) and not self.get_payload(dflt.ref).items:
+                return VSeqZ(z3.If(z3.Select(p.keys, k), z3.Select(p.vals, k), z3.Empty(SEQ)))
+            raise Unsupported("dict.get with a non-empty default")
         if isinstance(recv, VDict):
             p = self.get_payload(recv.ref)
             if name == "get" and isinstance(args[0], VStr) and args[0].kind == "lit":
